@@ -265,6 +265,13 @@ def run(ctx, chk):
     import rules_c07
     from report import Sub
     crate = ctx.crate("zvt_feig_terminal")
+    # "the summary reproduces the amount ... the terminal reported" over the fields' full ranges: the status-information fields
+    # are wide enough for their BCD digits (C03-a/bcd-width)
+    import rules_c03
+    sub3 = Sub(chk, "C08-b", lambda r: r == "C03-a/bcd-width", instance_filter=lambda i: "StatusInformation" in str(i) or "PartialReversal" in str(i)
+               or "Reservation" in str(i))
+    rules_c03._run_own(ctx, sub3)
+    chk.floor("BCD field widths of the packets of this exchange (shared with C03-a)", sub3.count, 4)
     sub = Sub(chk, "C08-c", lambda r: r in ("C07-c/value", "C07-c/insert", "C07-c/key", "C07-d/receipt", "C07-d/request"))
     rules_c07.begin(sub, crate)
     rules_c07.close(sub, crate, "commit_transaction")
